@@ -571,6 +571,7 @@ type Unit struct {
 	Assumed  bool
 	Ctx      *Ctx
 	Splits   []*Term
+	Trusted  []string
 }
 
 func (e *Engine) newCtx(name string, ct *Contract) *Ctx {
@@ -688,6 +689,7 @@ func (e *Engine) verifyUnit(ct *Contract) (u *Unit) {
 		u.Opaque = c.opaque
 		u.TermUnproved = c.termUnproved
 		u.Inputs = c.inputs
+		u.Trusted = c.trustedClauses
 		u.Splits = append(append([]*Term{}, c.splits...), c.ifSplits...)
 	}()
 	var args []Val
@@ -708,6 +710,11 @@ func (e *Engine) verifyUnit(ct *Contract) (u *Unit) {
 		case "requires":
 			c.assume(cond)
 		case "ensures":
+			if strings.HasPrefix(label, "trusted.") {
+				// a postcondition that is assumed at call sites but not proved here (listed with the assumptions)
+				c.trustedClauses = append(c.trustedClauses, label)
+				return
+			}
 			k := "post"
 			if ct.Kind == "lemma" {
 				k = "lemma"
